@@ -16,6 +16,8 @@ type specCtx struct {
 	callee *calleeCtx
 	binds  map[string]string
 	inOld  bool
+	oldNames  map[string]Val // entry values of parameters the callee modifies in place
+	modParams []string
 }
 
 func (sc *specCtx) withBound(name string, v Val) *specCtx {
@@ -128,6 +130,11 @@ func (fc *FuncCtx) sortOfTypeName(name string, sc *specCtx) (*Sort, types.Type) 
 func (fc *FuncCtx) lookupSpecName(st *State, name string, sc *specCtx) (Val, bool) {
 	if v, ok := sc.bound[name]; ok {
 		return v, true
+	}
+	if sc.inOld {
+		if v, ok := sc.oldNames[name]; ok {
+			return v, true
+		}
 	}
 	if v, ok := sc.names[name]; ok {
 		return v, true
@@ -391,7 +398,8 @@ func (fc *FuncCtx) evalSpec(st *State, e *SExpr, sc *specCtx) Val {
 			bv := BVar(fmt.Sprintf("%s!q%d", qv.Name, fc.fresh), s)
 			vars = append(vars, bv)
 			n = n.withBound(qv.Name, Val{T: bv, Typ: gt})
-			if gt != nil {
+			// quantified 64-bit integers are mathematical (no range guard); small integer types keep their range
+			if w, _ := intWidth(gt); gt != nil && (w == 0 || w < 64) {
 				guards = append(guards, fc.typeFacts(bv, gt))
 			}
 		}
@@ -411,7 +419,9 @@ func (fc *FuncCtx) evalSpec(st *State, e *SExpr, sc *specCtx) Val {
 		g := And(guards...)
 		ex := And(extra...)
 		if e.Name == "forall" {
-			return Val{T: Forall(vars, Implies(And(g, ex), body)), Typ: types.Typ[types.Bool]}
+			q := Forall(vars, Implies(And(g, ex), body))
+			autoPattern(q)
+			return Val{T: q, Typ: types.Typ[types.Bool]}
 		}
 		return Val{T: Exists(vars, And(g, ex, body)), Typ: types.Typ[types.Bool]}
 	case "call":
@@ -478,9 +488,29 @@ func (fc *FuncCtx) specFieldLoc(st *State, base Val, index []int, sc *specCtx) *
 	return loc
 }
 
+// ghostFieldLoc: location of ghost field name(obj)
+func (fc *FuncCtx) ghostFieldLoc(st *State, name string, argEs []*SExpr, sc *specCtx) *Loc {
+	gf, ok := fc.eng.contracts.GhostFields[name]
+	if !ok || len(argEs) != 1 {
+		return nil
+	}
+	a := fc.evalSpec(st, argEs[0], sc)
+	if a.T == nil && a.Loc != nil {
+		a = Val{T: fc.readLoc(st, a.Loc), Typ: a.Loc.Typ}
+	}
+	s, _ := fc.sortOfTypeName(gf.Sort, sc)
+	return &Loc{Kind: "field", Base: fc.coerceTerm(a.T, SV), Key: "GF$" + name, Sort: s}
+}
+
 // specLoc evaluates a spec expression to a location (for modifies / &x).
 func (fc *FuncCtx) specLoc(st *State, e *SExpr, sc *specCtx) *Loc {
 	switch e.Kind {
+	case "call":
+		if e.Args[0].Kind == "ident" {
+			if l := fc.ghostFieldLoc(st, e.Args[0].Name, e.Args[1:], sc); l != nil {
+				return l
+			}
+		}
 	case "sel":
 		base := fc.evalSpec(st, e.Args[0], sc)
 		if base.Typ == nil {
@@ -576,6 +606,9 @@ func (fc *FuncCtx) evalSpecCall(st *State, e *SExpr, sc *specCtx) Val {
 		name := fun.Name
 		// not shadowed by a local/param name
 		if _, shadow := sc.bound[name]; !shadow {
+			if l := fc.ghostFieldLoc(st, name, argEs, sc); l != nil {
+				return Val{T: fc.readLoc(st, l)}
+			}
 			if v, ok := fc.specBuiltin(st, name, argEs, sc); ok {
 				return v
 			}
@@ -682,6 +715,24 @@ func (fc *FuncCtx) specBuiltin(st *State, name string, argEs []*SExpr, sc *specC
 	case "bit":
 		a, k := arg(0), arg(1)
 		return Val{T: mk("bit", SInt, a.T, k.T), Typ: tInt}, true
+	case "as":
+		// as(x, T): x viewed at Go type T (type assertion / conversion without change of value)
+		a := arg(0)
+		_, t := fc.sortOfTypeName(strings.ReplaceAll(argEs[1].String(), " ", ""), sc)
+		if t == nil {
+			panic(engineError{"spec: as(): unknown type " + argEs[1].String()})
+		}
+		return Val{T: fc.coerceTerm(a.T, fc.sortOf(t)), Typ: t}, true
+	case "bytes":
+		// bytes(a, b, ...): the byte slice literal []byte{a, b, ...}
+		var cur *Term = &Term{Op: "const-array", Args: []*Term{IntLit(0)}, Sort: ArrayOf(SInt, SInt)}
+		for i := range argEs {
+			cur = Store(cur, IntLit(int64(i)), arg(i).T)
+		}
+		return Val{T: MkSlice(cur, IntLit(int64(len(argEs)))), Typ: types.NewSlice(types.Typ[types.Uint8])}, true
+	case "strbytes":
+		a := arg(0)
+		return Val{T: App("str$bytes", SliceOf(SInt), a.T), Typ: types.NewSlice(types.Typ[types.Uint8])}, true
 	case "or8", "and8", "xor8", "andnot8":
 		a, b := arg(0), arg(1)
 		return Val{T: mk(name, SInt, a.T, b.T), Typ: types.Typ[types.Uint8]}, true
